@@ -74,9 +74,10 @@ Qed.
 (* a condition that is just a comparison on a reserved bare name is rejected by Language.Match *)
 Theorem reserved_condition_rejected expr it vals names op t r :
   parse_cond expr = Some (EInfix op (EIdent t) r, 0) -> is_reserved (lit t) = true ->
+  mem [] names = false ->
   lang_match expr it vals names = Err Syntax \/ lang_match expr it vals names = Err Unsupported.
 Proof.
-  intros P H. unfold lang_match. rewrite P. cbn [Nat.eqb negb].
+  intros P H Hn. unfold lang_match. rewrite P. cbn [Nat.eqb negb]. rewrite Hn.
   destruct (add_attributes [] it) as [st1|]; auto. destruct (add_attributes st1 vals) as [st2|]; auto.
   unfold eval_conditional. rewrite reserved_in_comparison_left by exact H. now left.
 Qed.
@@ -111,7 +112,7 @@ Proof.
   intros Hin Hc. unfold validate_expr_attrs.
   assert (forallb (fun n0 => contains_sub (trim (join (bs " ") exprs)) n0) names = false) as F.
   { apply not_true_is_false. intros Ht. rewrite forallb_forall in Ht. apply Ht in Hin. congruence. }
-  destruct (trim (join (bs " ") exprs)); destruct names; try (inversion Hin; fail); destruct vals; cbn in *; rewrite ?F; auto.
+  destruct (trim (join (bs " ") exprs)); destruct names; try (inversion Hin; fail); destruct vals; cbn [andb] in *; rewrite ?F; auto.
 Qed.
 
 Theorem malformed_name_rejected names vals exprs n :
